@@ -400,6 +400,34 @@ impl Network {
 }
 
 impl Network {
+    /// Upper bound on the number of vehicles a schedule needs: for each service trip the
+    /// number of vehicles required to serve it (at least a full formation of its type) plus one
+    /// vehicle per maintenance track.
+    pub fn vehicle_upper_bound(
+        service_trips: &HashMap<VehicleTypeIdx, Vec<ServiceTrip>>,
+        maintenance_slots: &[MaintenanceSlot],
+        vehicle_types: &VehicleTypes,
+    ) -> VehicleCount {
+        let for_service_trips: VehicleCount = service_trips
+            .iter()
+            .map(|(vt, trips)| {
+                let vehicle_type = vehicle_types.get(*vt).unwrap();
+                trips
+                    .iter()
+                    .map(|trip| {
+                        trip.passengers()
+                            .div_ceil(vehicle_type.capacity())
+                            .max(trip.seated().div_ceil(vehicle_type.seats()))
+                            .max(vehicle_type.maximal_formation_count().unwrap_or(1))
+                    })
+                    .sum::<VehicleCount>()
+            })
+            .sum();
+        let for_maintenance: VehicleCount =
+            maintenance_slots.iter().map(|m| m.track_count()).sum();
+        for_service_trips + for_maintenance
+    }
+
     /// create a new network from the given data.
     /// The nodes idx must be in such a way that service_trips flattened and then maintenance
     /// nodes as vec gives the index within the vector.
@@ -424,19 +452,8 @@ impl Network {
         // add overflow depot:
         // its has infinity capacity for all types (i.e., service trips * maximal_formation_count)
         // but it is located Nowhere, i.e. Distance is Infinity to all other locations
-        let number_of_service_nodes = service_trips.values().map(|vec| vec.len()).sum::<usize>();
-        let max_formation_count = vehicle_types
-            .iter()
-            .map(|vt| {
-                vehicle_types
-                    .get(vt)
-                    .unwrap()
-                    .maximal_formation_count()
-                    .unwrap_or(1)
-            })
-            .max()
-            .unwrap_or(1);
-        let overflow_capacity = number_of_service_nodes as VehicleCount * max_formation_count;
+        let overflow_capacity =
+            Network::vehicle_upper_bound(&service_trips, &maintenance_slots, &vehicle_types);
         let overflow_depot_id = DepotIdx::from(depots.len() as Idx);
         let overflow_depot = Depot::new(
             overflow_depot_id,
